@@ -44,11 +44,19 @@ pub struct Fail {
     /// colliding positions of C05, one of which came from an earlier case)
     #[serde(default)]
     pub replay_case: Option<Value>,
+    /// the symptom needs no wall clock and no second opinion (e.g. a spliced output line was read):
+    /// the fresh-process confirmation that wall-clock oracles get is skipped
+    #[serde(default)]
+    pub decisive: bool,
 }
 
 impl Fail {
     pub fn new(signature: &str, detail: String) -> Fail {
-        Fail { signature: signature.to_string(), detail, replay_case: None }
+        Fail { signature: signature.to_string(), detail, replay_case: None, decisive: false }
+    }
+    pub fn decisive(mut self) -> Fail {
+        self.decisive = true;
+        self
     }
     pub fn with_case(mut self, case: Value) -> Fail {
         self.replay_case = Some(case);
@@ -126,6 +134,8 @@ pub struct Violation {
     pub signature: String,
     pub detail: String,
     pub replay: String,
+    #[serde(default)]
+    pub decisive: bool,
 }
 
 #[derive(Serialize, Deserialize, Default)]
